@@ -96,6 +96,9 @@ class AlgorandMnemonicDecoder(MnemonicDecoderBase):
 
         # Validate checksum
         self.__ValidateChecksum(entropy_bytes, word_indexes[-1], words_list)
+        # The discarded bits of the last word shall be zero, otherwise the mnemonic is not a valid encoding
+        if entropy_list[-1] != 0:
+            raise ValueError("Invalid mnemonic (last word has non-zero padding bits)")
 
         return entropy_bytes
 
